@@ -169,31 +169,44 @@ Proof.
     reflexivity.
 Qed.
 
-Lemma init_keep_all : forall l used,
-  nodup_ids used l = true -> forallb (fun f => 0 <? fx_id f) l = true -> init_keep used l = (l, []).
-Proof.
-  induction l as [|f r IH]; intros used Hn Hp; [reflexivity|].
-  cbn [nodup_ids forallb] in *. apply andb_true_iff in Hn as [Hf Hr]. apply andb_true_iff in Hp as [Hp Hpr].
-  cbn [init_keep]. rewrite Hp, Hf. cbn [andb]. now rewrite (IH _ Hr Hpr).
-Qed.
-
 Section Fix.
   Variable same_var : list N -> list N -> bool.
 
-  (** distinct positive indexes are kept as they are *)
-  Theorem fix_init_keeps l : nodup_ids [] l = true -> forallb (fun f => 0 <? fx_id f) l = true ->
-    fix_init same_var l = l.
-  Proof. intros Hn Hp. unfold fix_init. now rewrite (init_keep_all l [] Hn Hp). Qed.
+  Lemma put_fresh k f : forallb (fun g => negb (same_var (fx_var g) (fx_var f))) k = true -> put same_var k f = k ++ [f].
+  Proof.
+    induction k as [|g k IH]; intros H; [reflexivity|]. cbn [forallb] in H. apply andb_true_iff in H as [Hg Hk].
+    apply negb_true_iff in Hg. cbn [put app]. now rewrite Hg, (IH Hk).
+  Qed.
 
-  (** export then parse of up to 99 fixups with distinct indexes 1..99: same variables, values and indexes *)
-  Theorem fixups_roundtrip l : fixups_ok l = true ->
+  Lemma init_fold : forall rest used k,
+    nodup_ids used rest = true -> forallb (fun f => 0 <? fx_id f) rest = true -> vars_fresh same_var k rest = true ->
+    exists used', fold_left (init_step same_var) rest (used, k, []) = (used', k ++ rest, []).
+  Proof.
+    induction rest as [|f r IH]; intros used k Hn Hp Hv.
+    - exists used. now rewrite app_nil_r.
+    - cbn [nodup_ids forallb vars_fresh] in *. apply andb_true_iff in Hn as [Hf Hr]. apply andb_true_iff in Hp as [Hp Hpr].
+      apply andb_true_iff in Hv as [Hv Hvr]. cbn [fold_left init_step]. rewrite Hp, Hf. cbn [andb].
+      rewrite (put_fresh k f Hv). destruct (IH (fx_id f :: used) (k ++ [f]) Hr Hpr Hvr) as [u Hu].
+      exists u. rewrite Hu. now rewrite <- app_assoc.
+  Qed.
+
+  (** distinct positive indexes of distinctly named variables are kept as they are *)
+  Theorem fix_init_keeps l : nodup_ids [] l = true -> forallb (fun f => 0 <? fx_id f) l = true ->
+    vars_fresh same_var [] l = true -> fix_init same_var l = l.
+  Proof.
+    intros Hn Hp Hv. unfold fix_init. destruct (init_fold l [] [] Hn Hp Hv) as [u Hu]. now rewrite Hu.
+  Qed.
+
+  (** export then parse of up to 99 fixups with distinct indexes 1..99 and distinct names: same variables, values and
+      indexes *)
+  Theorem fixups_roundtrip l : fixups_ok l = true -> vars_fresh same_var [] l = true ->
     fix_init same_var (map (parse_fixup_line 2) (map (fixup_line 2) l)) = l.
   Proof.
-    intros H. unfold fixups_ok in H. apply andb_true_iff in H as [Hok Hn].
+    intros H Hv. unfold fixups_ok in H. apply andb_true_iff in H as [Hok Hn].
     assert (E : map (parse_fixup_line 2) (map (fixup_line 2) l) = l).
     { rewrite map_map. rewrite <- (map_id l) at 2. apply map_ext_in. intros f Hf.
       rewrite forallb_forall in Hok. now apply fixup_line_roundtrip, Hok. }
-    rewrite E. apply fix_init_keeps; [exact Hn|].
+    rewrite E. apply fix_init_keeps; [exact Hn| |exact Hv].
     rewrite forallb_forall in *. intros f Hf. specialize (Hok f Hf). unfold fixup_ok in Hok.
     repeat (apply andb_true_iff in Hok as [Hok ?]). lia.
   Qed.
@@ -201,7 +214,7 @@ End Fix.
 
 (** a duplicated index is re-assigned the lowest unused one (so the parsed map has distinct indexes again) *)
 Example fix_init_duplicate_example :
-  fix_init (fun a b => false) [([97], [49], 1); ([98], [50], 1); ([99], [51], 0)]
+  fix_init (fun a b => nlist_eqb a b) [([97], [49], 1); ([98], [50], 1); ([99], [51], 0)]
   = [([97], [49], 1); ([98], [50], 2); ([99], [51], 3)].
 Proof. vm_compute. reflexivity. Qed.
 (** a variable name containing a space does not survive (format limit) *)
